@@ -76,7 +76,7 @@ def make_case(rng, i):
     late_marks = {rng.randint(0, max(0, copy_at)): l for l in late}
     for idx, st in enumerate(hist[:copy_at]):
         if idx in late_marks:
-            out.append({"op": "add_listener", "providers": [late_marks[idx]]})
+            out.append({"op": "add_listener", "providers": [late_marks[idx]], "via": rng.choice(["listener", "listener", "observer"])})
             attached.append(late_marks[idx])
         out.append(st)
     out.append({"op": "other", "action": "clone", "how": how, "active": attached})
